@@ -725,7 +725,7 @@ def run_shard(spec, ctx):
             ctx.nontriv(digest((ckey, beh, s0["preinit"], s0["t_max"])))
         if nrep >= 2 and any(b in ("inplace", "mixed") for b in beh.values()):
             ctx.count("behaviours-with-in-place-mutation-before-a-later-replicate")
-        if ctx.evaluations % 997 == 1:
+        if not ctx.samples or ctx.evaluations % 997 == 1:
             ctx.sample(dict(NREP=nrep, NGEN=ngen, LOGINIT=loginit, EMPTY=list(empty), beh=beh, preinit=s0["preinit"],
                             model_actions=[l for l, _ in path],
                             model_t_cur=[s["t_cur"] for _, s in steps], final_work=final["work"], final_start=final["start"]))
